@@ -24,8 +24,10 @@ def run(model, rep, tier):
     A = rep.attempt
     A(editrules.c16_lockstep, model, rep, r)
     A(editrules.c16_links, model, rep, r)
+    A(editrules.graph_registry_pairing, model, rep, r, "R1")
     A(lambda: order_rule(model, rep))
     A(index_holes, model, rep, r)
+    A(sysrules.relation_table_rule, model, rep, "R3")
     A(row_carry, model, rep, r)
     A(rel_update_rule, model, rep, r)
     A(config_reports, model, rep, r)
@@ -205,6 +207,18 @@ def config_reports(model, rep, r):
     if not pd or sorted(k.value for k in pd[0].keys) != sorted(PARAM_KEYS):
         ok = False
         rep.violation("R5", "system.System._pars_and_limits", where, "the parameter request does not list every parameter key", "request keys")
+    # parameter columns exactly when parameters are requested, limit columns exactly when limits are
+    P_, L_ = [a.arg for a in fn.args.args][1:3]
+    for x in ast.walk(fn):
+        if isinstance(x, ast.If) and ast.unparse(x.test) in (P_, L_):
+            kind = "param" if ast.unparse(x.test) == P_ else "limit"
+            for y in ast.walk(ast.Module(body=x.body, type_ignores=[])):
+                if isinstance(y, ast.AugAssign) and isinstance(y.target, ast.Name) and y.target.id in var_key and var_key[y.target.id][0][0] != kind:
+                    ok = False
+                    rep.violation("R5", "system.System._pars_and_limits", "%s:%d" % (rel, y.lineno), "a %s column is filled under the '%s' switch" % (var_key[y.target.id][0][0], ast.unparse(x.test)), "switch mismatch")
+        elif isinstance(x, ast.If) and any(n_ in (P_, L_) for n_ in {z.id for z in ast.walk(x.test) if isinstance(z, ast.Name)}):
+            ok = False
+            rep.violation("R5", "system.System._pars_and_limits", "%s:%d" % (rel, x.lineno), "columns are switched by `%s`, expected the plain request flag" % ast.unparse(x.test), "switch condition " + ast.unparse(x.test))
     rep.instance("R5", "system.System._pars_and_limits column routing", where, ok, "%d columns" % len(hdr))
     # _get_params: tables as 'interp', otherwise the stored value
     gp = model.method("_Component", "_get_params")[1]
@@ -223,8 +237,16 @@ def config_reports(model, rep, r):
     rep.instance("R5", "components._Component._get_params", "%s:%d" % (model.rel("components"), gp.lineno), ok)
     # _filt_lim blanks exactly the default
     fl = model.own_method("System", "_filt_lim")
-    src = ast.unparse(fl).replace('"', "'")
-    ok = "_get_opt(self._g[node]._limits, key, '')" in src and "== LIMITS_DEFAULT[key]" in src and "return ''" in src and "return limits" in src
+    ok = False
+    NODE, KEY = [a.arg for a in fl.args.args][1:3]
+    body = [s_ for s_ in fl.body if not (isinstance(s_, ast.Expr) and isinstance(s_.value, ast.Constant))]
+    if len(body) == 3 and isinstance(body[0], ast.Assign) and isinstance(body[0].targets[0], ast.Name) and isinstance(body[1], ast.If) and isinstance(body[2], ast.Return):
+        lv = body[0].targets[0].id
+        got_ok = ast.unparse(body[0].value).replace('"', "'").replace(" ", "") == "_get_opt(self._g[%s]._limits,%s,'')" % (NODE, KEY)
+        t = body[1].test
+        test_ok = isinstance(t, ast.Compare) and len(t.ops) == 1 and isinstance(t.ops[0], ast.Eq) and {ast.unparse(t.left), ast.unparse(t.comparators[0])} == {lv, "LIMITS_DEFAULT[%s]" % KEY}
+        ret_ok = len(body[1].body) == 1 and isinstance(body[1].body[0], ast.Return) and ast.unparse(body[1].body[0].value).replace('"', "'") == "''" and not body[1].orelse and is_name(body[2].value, lv)
+        ok = got_ok and test_ok and ret_ok
     if not ok:
         rep.violation("R5", "system.System._filt_lim", "%s:%d" % (rel, fl.lineno), "limits are not shown as 'the configured pair unless it equals the default'", "filt_lim")
     rep.instance("R5", "system.System._filt_lim", "%s:%d" % (rel, fl.lineno), ok)
